@@ -50,7 +50,7 @@ def run(ctx: Ctx):
     ctx.count("programs_with_end_pattern", ends)
     # hand-written shapes go through the same path: they are parsed back into the harness AST by a tiny reader? no - the RI needs an
     # AST, so the hand shapes are built as ASTs here
-    hand_asts = hand_programs()
+    hand_asts = hand_programs() + inverted_tail_shapes(rng, 24 if quick else 300)
     for ast in hand_asts:
         src = gen.prog_src(ast)
         r = nm.compile_source(src, ["-feof-support", "-findirect-start-ptr"], name="p0", keep=False)
@@ -79,6 +79,47 @@ def run(ctx: Ctx):
                 "is fed byte-wise and end() is called after it (every prefix of the guided inputs is an input of its own); the events and the result "
                 "of end() must be what the reference interpreter prescribes for input + END; non-trivial = an event was observed; distinct by (source, input)")
     ctx.assumptions += ["END is a symbol no data pattern matches; only `end` consumes it; a wait ignores it (vf/ri.py)"]
+
+
+def inverted_tail_shapes(rng, n):
+    """a region with its own no-match handler (try body, case arm next to an else arm, optional, foreach) that ends in an open-ended
+    inverted-set / class regex, followed by a statement that starts with one of the excluded bytes: END arriving in the regex's
+    accept state belongs to the following statement's handler (none: FAIL), not to the region's"""
+    L = lambda s: N("match", p=N("lit", bs=s, form="s"))
+    out = []
+    for _ in range(n):
+        exc = rng.sample(list(b"=;,x"), rng.choice([1, 1, 2]))
+        inv = rng.random() < 0.75
+        atom = ("set", [("ch", c) for c in exc], True) if inv else ("set", [("range", 97, 122)], False)
+        tree = ("op", atom, rng.choice("*+"))
+        if rng.random() < 0.4:
+            tree = ("seq", [("ch", 107), tree])
+        pat = N("rx", tree=tree, binary=False)
+        nullable = tree[0] == "op" and tree[2] == "*"
+        s0 = N("out", name="s0", typ="str", size=rng.choice([3, 8]), default=None)
+        i0 = N("out", name="i0", typ="int", signed=None, width=None, default=0)
+        m = N("appendm", var="s0", p=pat) if rng.random() < 0.5 else N("match", p=pat)
+        handler = rng.choice([[N("hook", name="h1")], [], [N("hook", name="h1"), L(b"!")], [N("assign", var="i0", e=N("num", v=2, text="2"))]])
+        k = rng.random()
+        if k < 0.45:
+            blk = N("try", body=rng.choice([[m], [L(b"k"), m]]), reasons=rng.choice([None, ["nomatch"]]), handler=handler)
+        elif k < 0.75:
+            if nullable:
+                continue
+            blk = N("case", greedy=False, clauses=[N("clause", preds=[pat], body=[N("hook", name="h0")], prio=None),
+                                                   N("clause", preds=["else"], body=handler or [N("hook", name="h1")], prio=None)])
+        elif k < 0.9:
+            if nullable:
+                continue
+            blk = N("optional", body=[m])
+        else:
+            if nullable:
+                continue
+            blk = N("foreach", body=[N("match", p=pat)], do=[N("assign", var="i0", e=N("bin", op="+", a=N("var", name="i0"), b=N("num", v=1, text="1")))])
+        after = [L(bytes([exc[0]]) + b"v")] + rng.choice([[], [N("hook", name="h0")], [N("match", p=N("end"))]])
+        pre = rng.choice([[], [L(b"<")]])
+        out.append(N("prog", outs=[s0, i0], hooks=["h0", "h1"], fcodes=[], ycodes=[], macros=[], args=[], body=pre + [blk] + after))
+    return out
 
 
 def hand_programs():
